@@ -21,6 +21,8 @@ pub struct Table {
     sym: bool,
     /// values shifted to [-0.5, 0.5): user similarities may be negative
     signed: bool,
+    /// coarse values 0, 0.25, …, 1.75: scores above 1 and exact 1.0 are frequent
+    coarse: bool,
     salt: u64,
 }
 
@@ -34,6 +36,9 @@ impl Table {
     }
     fn val(&self, a: u32, b: u32) -> f32 {
         let k = self.k(u64::from(a), u64::from(b)) as f32;
+        if self.coarse {
+            return (self.k(u64::from(a), u64::from(b)) % 8) as f32 / 4.0;
+        }
         if self.signed {
             (k - 32.0) / 64.0
         } else {
@@ -42,6 +47,9 @@ impl Table {
     }
     fn val64(&self, a: u32, b: u32) -> f64 {
         let k = self.k(u64::from(a), u64::from(b)) as f64;
+        if self.coarse {
+            return (self.k(u64::from(a), u64::from(b)) % 8) as f64 / 4.0;
+        }
         if self.signed {
             (k - 32.0) / 64.0
         } else {
@@ -59,10 +67,12 @@ impl Similarity for Table {
 fn parse_spec(s: &str) -> Option<Table> {
     let salt = s.get(1..)?.parse::<u64>().ok()?;
     match s.as_bytes().first()? {
-        b't' => Some(Table { sym: false, signed: false, salt }),
-        b's' => Some(Table { sym: true, signed: false, salt }),
-        b'n' => Some(Table { sym: false, signed: true, salt }),
-        b'm' => Some(Table { sym: true, signed: true, salt }),
+        b't' => Some(Table { sym: false, signed: false, coarse: false, salt }),
+        b's' => Some(Table { sym: true, signed: false, coarse: false, salt }),
+        b'n' => Some(Table { sym: false, signed: true, coarse: false, salt }),
+        b'm' => Some(Table { sym: true, signed: true, coarse: false, salt }),
+        b'u' => Some(Table { sym: false, signed: false, coarse: true, salt }),
+        b'v' => Some(Table { sym: true, signed: false, coarse: true, salt }),
         _ => None,
     }
 }
@@ -168,6 +178,15 @@ pub fn exec(it: &mut Interp, toks: &[&str], out: &mut Vec<String>) -> bool {
                 None => out.push("oracle ok".to_string()),
                 Some(f) => out.push(format!("oracle FAIL setsim: {f}")),
             }
+            true
+        }
+        ["matsim1", cb, ks] => {
+            // a one-row matrix with tens of thousands of columns: only the combined score
+            let (Some(comb), Some(ks)) = (parse_comb(cb), unids(ks)) else { return false };
+            let data: Vec<f32> = ks.iter().map(|k| *k as f32 / 64.0).collect();
+            let m = Matrix::new(1, data.len(), &data);
+            let s = comb.calculate(&m);
+            out.push(format!("MS {}", f32bits(s)));
             true
         }
         ["matsim", cb, r, c, ks] => {
